@@ -117,12 +117,12 @@ Qed.
 Lemma interest_effect c s a id ie s' :
   VWf s -> msg_interest_calc c s a id ie = Ok s' ->
   exists v0, find_v (vaults s) id = Some v0 /\ 0 <= ie /\
-    effect c s s' 0 (BUpd v0 (with_int v0 (v_int v0 + ie))) 0.
+    forall u, effect c s s' u (BUpd v0 (with_int v0 (v_int v0 + ie))) 0.
 Proof.
   intros W H. unfold msg_interest_calc in H. do 2 exec1 H. rename C0 into M.
   destruct (accrue_inv _ _ _ _ _ H M) as [Hie ->].
   pose proof (vwf_found _ _ _ W M) as (W1 & W2 & W3 & W4). pose proof (find_v_id _ _ _ M) as Hvid.
-  exists v. split; [reflexivity|]. split; [lia|].
+  exists v. split; [reflexivity|]. split; [lia|]. intros u.
   constructor; ssimpl; bc_simpl; try reflexivity.
   - repeat split; congruence.
   - unfold wfv; bc_simpl; lia.
